@@ -766,6 +766,7 @@ Proof.
   - apply AccInv_k_deliver, H.
   - apply AccInv_k_egress, H.
   - eapply AccInv_same; [| | | |exact H]; reflexivity.
+  - eapply AccInv_same; [| | | |exact H]; reflexivity.
 Qed.
 
 Lemma AccInv_orun es o : AccInv (okk o) (acc_log o) -> AccInv (okk (orun o es)) (acc_log (orun o es)).
